@@ -33,7 +33,7 @@ TECHNIQUE = ("exhaustive (valid case x single-fault operator x position x run-fo
 RULE = ("valid cases: G-DAG N<=2 (every base pipeline and every single decoration; thorough adds N=3 undecorated) and G-MAP (quick: all 1-function "
         "pipelines + the 2-function pipelines whose second function consumes only `a`; thorough: every 2-function pipeline). operators, each at "
         "every position: duplicate output name (every output -> every other output name, incl. the sibling inside a tuple), output named like each "
-        "own parameter, back edge closing a cycle / self loop, two different defaults for a shared root (signature/PipeFunc default, 4 "
+        "own parameter (also reached by renaming the parameter onto the output name), back edge closing a cycle / self loop, two different defaults for a shared root (signature/PipeFunc default, 4 "
         "combinations, each also with None as one of the two defaults), MapSpec naming a non-parameter (replace each input / add one), MapSpec missing an output, MapSpec output renamed / swapped "
         "(each given on the PipeFunc and as (PipeFunc, mapspec) to Pipeline), inconsistent axes in one consumer (rename / swap / rank-1 / rank+1 of "
         "each indexed array named by >= 2 MapSpecs), bound parameter in a MapSpec; Pipeline-level construction faults in both listing orders. "
@@ -210,6 +210,9 @@ def common_construct_faults(spec, gen):
             for p in f["params"]:
                 for order in _orders(n, "out-own-param"):
                     yield "out-own-param", {"i": i, "k": k, "p": p, "order": order}
+                    if gen == "dag" and p not in f.get("ren", {}) and p not in f.get("sigdef", {}) and p not in f.get("pfdef", {}):
+                        # the same collision reached by RENAMING the parameter onto the output's name (renames={p: o})
+                        yield "out-own-param", {"i": i, "k": k, "p": p, "order": order, "via": "rename"}
         for name in allouts:
             if name not in f["params"]:
                 for order in _orders(n, "cycle" if name not in f["outs"] else "out-own-param"):
@@ -244,6 +247,18 @@ def apply_common(spec, op, pos, gen):
         if not has_dup_output(funcs):
             return None
         return s, ("within-one-function" if within else "across-functions"), {"within_one_function": within}, f"two outputs named {pos['to']!r}"
+    if op == "out-own-param" and pos.get("via") == "rename":
+        f = funcs[pos["i"]]
+        o = f["outs"][pos["k"]]
+        if o in f["params"] or any(o in g["params"] for g in funcs if g is not f):
+            return None
+        f["params"] = [o if q == pos["p"] else q for q in f["params"]]
+        if pos["p"] in f.get("bound", {}):
+            f["bound"] = {(o if q == pos["p"] else q): v for q, v in f["bound"].items()}
+        f["ren_param_to"] = {pos["p"]: o}
+        if not has_out_own_param(funcs):
+            return None
+        return s, ("bound-param" if o in f.get("bound", {}) else "param") + "-by-rename", {}, f"{f['name']}: parameter {pos['p']!r} renamed onto its own output name {o!r}"
     if op == "out-own-param":
         f = funcs[pos["i"]]
         _rename_out(f, pos["k"], pos["p"])
